@@ -27,6 +27,9 @@ def run(ck, ctx):
                      "command that keeps the TTL by Redis semantics (frozen table) and is dominated by a purge of an expired k")
     ck.rule("R01.5", "empty collections stop existing: after a shrinking call on a stored collection every path to return passes an "
                      "emptiness test on that collection from whose true edge data.remove(k) is reachable")
+    ck.rule("R01.6", "create-if-absent never leaves an empty collection: after data.entry(k).or_insert_with(|| <empty collection>) every "
+                     "path to return adds an element (each iteration of the element loop, which runs at least once), or removes k again, "
+                     "or leaves through the wrong-type arm (no creation happened)")
     ck.rule("R01.7", "unit siblings agree: EXPIRE/PEXPIRE, EXPIREAT/PEXPIREAT, TTL/PTTL, EXPIRETIME/PEXPIRETIME have the same decision "
                      "skeleton (flag tests, Option/ordering tests, map updates, returned integers) once unit-conversion arithmetic "
                      "is ignored")
@@ -42,6 +45,7 @@ def run(ck, ctx):
         _r013(ck, prog, cfg, meths)
         _r014(ck, prog, cfg, meths)
         _r015(ck, prog, cfg, meths)
+        _r016(ck, prog, cfg, meths)
         _r017(ck, prog, cfg)
 
 
@@ -303,6 +307,137 @@ def _r015(ck, prog, cfg, meths):
                      "empty collection keeps existing (EXISTS/TYPE/DBSIZE differ from Redis)", f.where(w["ln"]),
                      detail="emptiness test + data.remove on every path")
     ck.floor("R01.5" + _tag(cfg), n, 7)
+
+
+ADDERS = (r"RedisList::(lpush|rpush)$", r"RedisSet::add$", r"RedisHash::set$", r"RedisSortedSet::add$")
+CREATE = (r"hash_map::Entry::<.*redis::data::value::Value>::(or_insert_with|or_insert|or_default)\b",)
+
+
+LOOKUPS = (r"Redis(List|Set|Hash|SortedSet)::(get|score|contains|rank|index|get_mut)$",)
+# error exits after a create-if-absent that cannot be taken when the key was absent (value reasoning, confirmed by reading)
+R016_INFEASIBLE = {
+    ("execute_hincrby", "ERR increment or decrement would overflow"):
+        "on a freshly created hash the field is absent, current = 0, and 0 + increment cannot overflow i64",
+}
+
+
+def _loop_heads(f):
+    """{switch block: (none_target, some_target)} for `match iter.next()` loop heads"""
+    out = {}
+    for b, t in f.calls():
+        if not is_callee(t, r"Iterator>::next$") or "p" in t["dest"]:
+            continue
+        sb = t.get("target")
+        sb = sb if sb is not None else (f.succ(b)[0] if f.succ(b) else None)
+        hops = 0
+        while sb is not None and f.term(sb)["k"] != "switch" and len(f.succ(sb)) == 1 and hops < 4:
+            sb = f.succ(sb)[0]
+            hops += 1
+        if sb is None or f.term(sb)["k"] != "switch":
+            continue
+        si = switch_info(f, sb)
+        if si and si["kind"] == "discr" and si["ty"].startswith("std::option::Option<") and si["place"]["l"] == t["dest"]["l"]:
+            tt = f.term(sb)
+            cases = dict((v, tg) for v, tg in tt["cases"])
+            if "0" in cases and "1" in cases:
+                out[sb] = (cases["0"], cases["1"])
+    return out
+
+
+def _r016(ck, prog, cfg, meths):
+    n = 0
+    for m, f in _bodies(prog, meths):
+        creates = [(b, t) for b, t in f.calls() if is_callee(t, *CREATE)]
+        if not creates:
+            continue
+        heads = _loop_heads(f)
+        adders = {b for b, t in f.calls() if is_callee(t, *ADDERS)}
+        removers = {b for b, t in f.calls() if is_callee(t, MAP + r"remove\b")}
+        for cb, ct in creates:
+            n += 1
+            created = set()
+            for ch in prog.children(f):
+                for b, i, st in ch.stmts():
+                    if st["lhs"] == {"l": 0} and st["rv"]["k"] == "agg" and st["rv"]["n"].startswith("redis::data::value::Value::"):
+                        created.add(st["rv"]["n"].rsplit("::", 1)[-1])
+            names = [v["n"] for v in prog.adts["redis::data::value::Value"]["variants"]]
+            # edges of the switch on the created value's discriminant that belong to another variant: the key already existed
+            exempt = set()
+            dl = ct["dest"]["l"] if "p" not in ct["dest"] else None
+            for sb in f.reachable_blocks():
+                si = switch_info(f, sb)
+                if si and si["kind"] == "discr" and si["ty"] == "redis::data::value::Value" and dl is not None and \
+                        (si["src"].kind == "call" and si["src"].term is ct or si["place"]["l"] == dl):
+                    tt = f.term(sb)
+                    listed = {names[int(v)]: tg for v, tg in tt["cases"]}
+                    for vn, tg in listed.items():
+                        if vn not in created:
+                            exempt.add((sb, tg))
+                    if not all(vn in listed for vn in created):
+                        pass
+                    else:
+                        exempt.add((sb, tt["else"]))
+            # a successful lookup in the collection proves it was not empty, i.e. not freshly created
+            for sb in f.reachable_blocks():
+                si = switch_info(f, sb)
+                if si and si["kind"] == "discr" and si["ty"].startswith("std::option::Option<") and si["src"].kind == "call" and \
+                        is_callee(si["src"].term, *LOOKUPS):
+                    tt = f.term(sb)
+                    for v, tg in tt["cases"]:
+                        if v == "1":
+                            exempt.add((sb, tg))
+            # the not-empty edge of an emptiness test on a stored collection: something is in it
+            for sb in f.reachable_blocks():
+                si = switch_info(f, sb)
+                if si and si["kind"] == "val" and si["src"].kind == "call" and is_callee(si["src"].term, r"Redis(List|Set|Hash|SortedSet)::is_empty$"):
+                    for v, tg in f.term(sb)["cases"]:
+                        if v == "0":
+                            exempt.add((sb, tg))
+            infeasible = set()
+            for b, ln, txt in effects.error_sites(f):
+                for (fn_, text), why in R016_INFEASIBLE.items():
+                    if fn_ == f.short and text in txt:
+                        infeasible.add(b)
+            # search: (block, frozenset of loop heads whose body was entered)
+            start = (cb, frozenset())
+            seen = {start}
+            work = [(start, [cb])]
+            bad_path = None
+            while work and bad_path is None:
+                (b, ent), path = work.pop()
+                if b != cb and (b in adders or b in removers or b in infeasible):
+                    continue
+                t = f.term(b)
+                if t["k"] == "return":
+                    bad_path = path
+                    break
+                for sx in f.succ(b):
+                    if (b, sx) in exempt:
+                        continue
+                    e2 = ent
+                    if b in heads:
+                        none_t, some_t = heads[b]
+                        if sx == none_t and b not in ent:
+                            continue            # the element loop runs at least once (the parsers reject empty element lists)
+                        if sx == some_t:
+                            e2 = ent | {b}
+                    st = (sx, e2)
+                    if st not in seen:
+                        seen.add(st)
+                        work.append((st, path + [sx]))
+            key = "%s:create#%d%s" % (f.short if hasattr(f, "short") else f.id, _ordn(f, cb, creates), _tag(cfg))
+            lines = []
+            if bad_path:
+                for x in bad_path:
+                    ln = f.term(x).get("ln")
+                    if ln and (not lines or lines[-1] != ln):
+                        lines.append(ln)
+            ck.check(bad_path is None, "R01.6", key,
+                     "the key is created with an empty collection and a path to return adds nothing and does not remove it again "
+                     "(an empty collection stays visible: EXISTS/TYPE/DBSIZE see it); path through lines %s" % lines[:14],
+                     f.where(ct["ln"]), detail="every path adds an element or removes the key")
+    ck.floor("R01.6" + _tag(cfg), n, 6)
+    ck.assume("R01.6: loops over a command's element slice run at least once (the parsers reject empty element lists)")
 
 
 def _purge_or_move(f, b, t):
